@@ -43,7 +43,8 @@
 (*   standalone-file         compress() output is not a valid standalone   *)
 (*                           file equal to the input (reference decoder)   *)
 (*   early-or-wrong-output   emitted data not a prefix of the plain text,  *)
-(*                           or more than the delivered wire carries       *)
+(*                           or more than the delivered wire carries and   *)
+(*                           the library released                          *)
 (*   truncation-not-flagged  truncated stream did not end with an error    *)
 (*   completion              untruncated stream did not complete cleanly   *)
 (*   roundtrip               untruncated stream: output # input            *)
@@ -75,6 +76,9 @@ PosBefore(k) == IF k <= 1 THEN 0 ELSE PosBefore(k - 1) + T.feeds[k - 1].n
 
 RECURSIVE BytesFed(_)
 BytesFed(k) == IF k = 0 THEN 0 ELSE BytesFed(k - 1) + T.feeds[k].nb
+
+RECURSIVE LibOut(_)
+LibOut(k) == IF k = 0 THEN 0 ELSE LibOut(k - 1) + Len(T.feeds[k].lib)
 
 RECURSIVE BytesOut(_)
 BytesOut(k) == IF k = 0 THEN 0 ELSE BytesOut(k - 1) + T.feeds[k].ob
@@ -142,7 +146,9 @@ TraceDNext ==
            remit2 == remit \o f.out
        IN IF p1 > T.truncated_at THEN Reject(l + 1, "model-harness-feed", "")
           ELSE IF ~IsPrefix(remit2, Plain) THEN Reject(l + 1, "early-or-wrong-output", "wrong")
-          ELSE IF Len(remit2) > Know(RWire, p1) THEN Reject(l + 1, "early-or-wrong-output", "early")
+          ELSE IF Len(remit2) > Know(RWire, p1) /\ Len(remit2) > LibOut(k)
+               THEN \* more than the delivered wire carries and more than the library gave
+                    Reject(l + 1, "early-or-wrong-output", "early")
           ELSE /\ remit' = remit2
                /\ Advance
                /\ IF ~mon THEN UNCHANGED <<vars, ax, mon, insync>>
